@@ -69,6 +69,13 @@ func Lint(cfg *Config) []string {
 								if !exists(e.File) {
 									probs = append(probs, fmt.Sprintf("missing-crt:%s:%s", sec.Name, e.File))
 								}
+								// files named by the bind options of the line (HAProxy refuses the whole
+								// configuration when one of them cannot be loaded)
+								for k := 0; k+1 < len(e.Opts); k++ {
+									if (e.Opts[k] == "ca-file" || e.Opts[k] == "crl-file") && !exists(e.Opts[k+1]) {
+										probs = append(probs, fmt.Sprintf("missing-file:%s:%s %s", sec.Name, e.Opts[k], e.Opts[k+1]))
+									}
+								}
 							}
 						}
 					}
